@@ -15,6 +15,16 @@ using namespace manifold;
 #define VF_L 3    // max length of every other vector
 #endif
 
+// MakeEmpty (impl.cpp) is replaced on the ladder's error paths by a stub that
+// records the request: clearing every container on each of the ~15 error exits
+// multiplies the formula; MakeEmpty itself is a separate obligation (makeempty).
+static int g_emptied = 0;
+#ifndef VF_REAL_MAKEEMPTY
+extern "C" void vf_stub_MakeEmpty(Manifold::Impl* self, int status) {
+  self->status_ = static_cast<Manifold::Error>(status);
+  g_emptied++;
+}
+#endif
 extern "C" uint32_t vf_stub_ReserveIDs(uint32_t n) {
   uint32_t r = vf_nondet_u32();
   vf_assume(r < 1000000 && n < 1000000);
@@ -74,10 +84,33 @@ static void ingest() {
   VF_EXCLUDE_KNOWN
 #endif
   Manifold::Impl impl(m, nullptr);
-  // reached only on the early-error returns (the success path ends at the cut)
-  VF_ASSERT(impl.status_ != Manifold::Error::NoError || (impl.NumVert() == 0 && impl.NumTri() == 0));
-  VF_ASSERT(impl.halfedge_.size() == 0 && impl.vertPos_.size() == 0);
+  // reached only on the early returns (the success path ends at the cut):
+  // every one of them went through MakeEmpty exactly once
+  VF_ASSERT(g_emptied == 1);
+  VF_ASSERT(impl.halfedge_.size() == 0);
   VF_END();
 }
 extern "C" void h_ingest64() { ingest<double, uint64_t>(); }
 extern "C" void h_ingest32() { ingest<float, uint32_t>(); }
+
+// MakeEmpty from an arbitrary small Impl: everything observable is emptied and
+// the requested status is set (what the ladder's error paths rely on)
+extern "C" void h_makeempty() {
+  Manifold::Impl impl;
+  unsigned nv = vf_nondet_u32() % 3, nt = vf_nondet_u32() % 3;
+  impl.vertPos_.resize(nv, vec3(0.0));
+  impl.halfedge_.resize(3 * nt);
+  impl.meshRelation_.triRef.resize(nt, TriRef{0, 0, -1, 0});
+  impl.faceNormal_.resize(nt, vec3(0.0));
+  impl.halfedgeTangent_.resize(3 * nt, vec4(0.0));
+  impl.numProp_ = 1;
+  impl.properties_.resize(nv, 0.0);
+  if (vf_bool()) impl.meshRelation_.meshIDtransform[3] = Manifold::Impl::Relation();
+  int st = vf_range(0, 14);
+  impl.MakeEmpty(static_cast<Manifold::Error>(st));
+  VF_ASSERT((int)impl.status_ == st);
+  VF_ASSERT(impl.NumVert() == 0 && impl.NumTri() == 0 && impl.IsEmpty());
+  VF_ASSERT(impl.halfedge_.size() == 0 && impl.halfedgeTangent_.size() == 0 && impl.meshRelation_.triRef.size() == 0);
+  VF_ASSERT(impl.meshRelation_.meshIDtransform.empty());
+  VF_END();
+}
